@@ -379,7 +379,7 @@ pub fn run_history(rec: &mut Recorder, seed: u64, hidx: u64, len: usize, nkeys: 
         if let Op::Verify = op {
             rec.count(if sim.last_verify == "ok" { "verifier.ok" } else if sim.last_verify.starts_with("backoff") { "verifier.backoff" } else { "verifier.error" });
             if sim.last_verify.starts_with("error") {
-                rec.case(&format!("# {}", tag), "#", Verdict::Fail { class: taint.clone().unwrap_or_else(|| "verifier-rejects-store-history".to_string()), detail: format!("{} {}", tag, sim.last_verify) }, None);
+                rec.case(&format!("# {}", tag), "#", Verdict::Fail { class: taint.clone().unwrap_or_else(|| sim.verifier_reject_class()), detail: format!("{} {}", tag, sim.last_verify) }, None);
             }
             // the store is quiescent when the pass runs (no reader snapshot, no compaction in
             // flight), so nothing the verifier waits for can still arrive
